@@ -110,12 +110,15 @@ fn mix_seed(base: u64, i: u64) -> u64 {
 
 // ------------------------------------------------------------------------------------ worker side
 
-/// `simk work <ID> <tier> <base_seed> <from> <to>`: run plans [from,to) and print one JSON line each.
-pub fn work(prop: &dyn Property, tier: Tier, base: u64, from: u64, to: u64) {
+/// `simk work <ID> <tier> <base_seed> <from> <to> [step]`: run plans from, from+step, ... below `to`
+/// and print one JSON line each.
+pub fn work(prop: &dyn Property, tier: Tier, base: u64, from: u64, to: u64, step: u64) {
     let stdout = std::io::stdout();
     let enumerated = prop.enumerated(tier);
     let n_enum = enumerated.len() as u64;
-    for i in from..to {
+    let mut i = from;
+    while i < to {
+        let t_run = Instant::now();
         let plan = if i < n_enum { enumerated[i as usize].clone() } else { prop.gen_plan(mix_seed(base, i - n_enum), tier) };
         let mut rep = prop.run_plan(&plan);
         // determinism re-check on a sample: same plan twice in this process must hash identically
@@ -127,10 +130,12 @@ pub fn work(prop: &dyn Property, tier: Tier, base: u64, from: u64, to: u64) {
             }
             rep.probes.insert("determinism_rechecks".into(), 1);
         }
-        let line = json!({"i": i, "report": rep, "plan": if rep.violations.is_empty() && rep.harness_error.is_none() { Value::Null } else { plan }});
+        let line = json!({"i": i, "wall_ms": t_run.elapsed().as_millis() as u64, "report": rep, "plan": if rep.violations.is_empty() && rep.harness_error.is_none() { Value::Null } else { plan }});
         let mut l = stdout.lock();
         let _ = writeln!(l, "{}", line);
         let _ = l.flush();
+        drop(l);
+        i += step.max(1);
     }
 }
 
@@ -224,20 +229,23 @@ pub fn check(prop: &dyn Property, tier: Tier, base_seed: u64, jobs: usize, runs_
     let total = runs_override.unwrap_or(prop.runs(tier)) + n_enum;
     let jobs = jobs.max(1).min(total.max(1) as usize);
     let exe = std::env::current_exe().unwrap();
-    // interleaved chunks so that every child gets a mix of cheap and expensive plans
-    let chunk = ((total + jobs as u64 - 1) / jobs as u64).max(1);
+    // child j runs plans j, j+jobs, j+2*jobs, ...: every child gets the same mix of cheap and expensive plans
     let mut children = Vec::new();
     for j in 0..jobs as u64 {
-        let from = j * chunk;
-        let to = ((j + 1) * chunk).min(total);
+        let from = j;
+        let to = total;
         if from >= to { continue; }
+        let errdir = verif_root().join("sim/target/tmp");
+        let _ = std::fs::create_dir_all(&errdir);
+        let errpath = errdir.join(format!("worker-{}-{}.err", std::process::id(), j));
+        let errfile = std::fs::File::create(&errpath).expect("worker stderr file");
         let child = Command::new(&exe)
-            .args(["work", id, tier.name(), &base_seed.to_string(), &from.to_string(), &to.to_string()])
+            .args(["work", id, tier.name(), &base_seed.to_string(), &from.to_string(), &to.to_string(), &jobs.to_string()])
             .stdout(Stdio::piped())
-            .stderr(Stdio::piped())
+            .stderr(Stdio::from(errfile))
             .spawn()
             .expect("spawn worker");
-        children.push((from, to, child));
+        children.push((from, to, child, errpath));
     }
     let mut evaluations = 0u64;
     let mut hashes: BTreeSet<u64> = BTreeSet::new();
@@ -249,10 +257,13 @@ pub fn check(prop: &dyn Property, tier: Tier, base_seed: u64, jobs: usize, runs_
     let mut found: Vec<(Violation, Value, u64)> = Vec::new();
     let mut harness_errors: Vec<String> = Vec::new();
     let mut total_violating_runs = 0u64;
+    let mut slowest: (u64, u64, String) = (0, 0, String::new());
+    let mut slow_runs = 0u64;
     // read all children concurrently (threads), collect lines
+    let jobs_u = jobs as u64;
     let (tx, rx) = std::sync::mpsc::channel::<(u64, Option<String>, Option<String>)>();
     let mut handles = Vec::new();
-    for (from, to, mut child) in children {
+    for (from, to, mut child, errpath) in children {
         let tx = tx.clone();
         handles.push(std::thread::spawn(move || {
             let out = child.stdout.take().unwrap();
@@ -265,10 +276,11 @@ pub fn check(prop: &dyn Property, tier: Tier, base_seed: u64, jobs: usize, runs_
                 }
             }
             let status = child.wait();
-            let mut err = String::new();
-            if let Some(mut e) = child.stderr.take() { use std::io::Read; let _ = e.read_to_string(&mut err); }
+            let err = std::fs::read_to_string(&errpath).unwrap_or_default();
+            let _ = std::fs::remove_file(&errpath);
             let ok = status.as_ref().map(|s| s.success()).unwrap_or(false);
-            if !ok || seen < to - from {
+            let expected = (to - from + (jobs_u - 1)) / jobs_u;
+            if !ok || seen < expected {
                 let tail: String = err.lines().rev().take(12).collect::<Vec<_>>().into_iter().rev().collect::<Vec<_>>().join(" | ");
                 let _ = tx.send((from, None, Some(format!("worker [{from},{to}) produced {seen} reports, status {:?}: {}", status, tail))));
             }
@@ -282,6 +294,9 @@ pub fn check(prop: &dyn Property, tier: Tier, base_seed: u64, jobs: usize, runs_
         let Ok(v) = serde_json::from_str::<Value>(&line) else { continue };
         let Ok(rep) = serde_json::from_value::<RunReport>(v["report"].clone()) else { continue };
         evaluations += 1;
+        let wall_ms = v["wall_ms"].as_u64().unwrap_or(0);
+        if wall_ms > slowest.0 { slowest = (wall_ms, rep.seed, rep.family.clone()); }
+        if wall_ms > 5000 { slow_runs += 1; }
         hashes.insert(rep.trace_hash);
         if rep.nontrivial { nontrivial_hashes.insert(rep.trace_hash); }
         stats.add(&rep.stats);
@@ -376,6 +391,8 @@ pub fn check(prop: &dyn Property, tier: Tier, base_seed: u64, jobs: usize, runs_
             },
             "probes": probes,
             "violating_runs": total_violating_runs,
+            "slowest_run": {"wall_ms": slowest.0, "seed": slowest.1, "family": slowest.2},
+            "runs_over_5s_wall": slow_runs,
             "known_findings_hit": lines.iter().filter(|l| l.starts_with("KNOWN-FINDING")).count(),
             "real_components": d.real,
             "stub_components": d.stub,
